@@ -21,7 +21,7 @@ RULE = (
     "(O_APPEND, totally ordered); the number of simultaneously open intervals must never exceed the resolved n_jobs (the "
     "number of distinct (pid, thread) workers is recorded, not judged), and with n_jobs=1 every task runs in the calling thread.  "
     "(c) nesting: outer backend in {loky, threading, multiprocessing} with n_jobs=2, nested Parallel(n_jobs=2) calls that leave "
-    "the backend unspecified, depth 1..3: every nested task must run in the process of its parent task, and level >= 2 tasks "
+    "the backend unspecified (optionally with the hint prefer='processes'|'threads'), depth 1..3: every nested task must run in the process of its parent task, and level >= 2 tasks "
     "in the very thread of their parent.  Non-trivial: (a) a negative n_jobs or a restricting mask/env; (b) more tasks than "
     "n_jobs with sleeping tasks (an oversized pool would show); (c) depth >= 2.  distinct = hash of the case."
 )
@@ -61,6 +61,7 @@ def strategy():
         "outer": st.sampled_from(["loky", "threading", "multiprocessing"]),
         "depth": st.integers(1, 3),
         "width": st.integers(1, 3),
+        "prefer": st.sampled_from([None, None, "processes", "threads"]),    # only a hint: it must not multiply processes
     })
     return st.integers(0, 9).flatmap(lambda i: arith if i < 4 else conc if i < 8 else nestc)
 
@@ -231,13 +232,13 @@ def _run_nest(spec):
         os.unlink(logpath)
     try:
         Parallel(n_jobs=2, backend=spec["outer"])(
-            delayed(tasks.nest)(0, spec["depth"], "t%d" % i, logpath) for i in range(spec["width"]))
+            delayed(tasks.nest)(0, spec["depth"], "t%d" % i, logpath, 5, spec.get("prefer")) for i in range(spec["width"]))
         lines = _parse(logpath)
     finally:
         if os.path.exists(logpath):
             os.unlink(logpath)
     info = {ln[2]: (int(ln[1]), int(ln[3]), int(ln[4])) for ln in lines}   # path -> (level, pid, tid)
-    where = "outer=%s depth=%d width=%d" % (spec["outer"], spec["depth"], spec["width"])
+    where = "outer=%s depth=%d width=%d nested prefer=%r" % (spec["outer"], spec["depth"], spec["width"], spec.get("prefer"))
     expected_paths = 0
     for path, (level, pid, tid) in info.items():
         if level == 0:
